@@ -318,7 +318,7 @@ int main(int argc, char** argv) {
     vf::info("rule", "every schedule (choice of the next enabled thread at each modelled-mutex operation and at each unprotected detector access) of real threads running allocation scripts through the thread-safe wrappers, up to the preemption bound; all blocks forced into one hash bucket; non-trivial = schedule with >= 1 preemption");
     struct Cfg { const char* name; int threads, scripts, bound; bool inside; };
     const Cfg quick[] = { {"sched2", 2, NSCRIPTS_T, 3, false}, {"sched3", 3, 4, 2, false}, {"sched2in", 2, 5, 2, true} };
-    const Cfg thor[]  = { {"sched2", 2, NSCRIPTS_T, 4, false}, {"sched3", 3, 6, 2, false}, {"sched4", 4, 3, 1, false}, {"sched2in", 2, NSCRIPTS_T, 2, true}, {"sched3in", 3, 3, 1, true} };
+    const Cfg thor[]  = { {"sched2", 2, NSCRIPTS_T, 5, false}, {"sched3", 3, 6, 3, false}, {"sched4", 4, 3, 2, false}, {"sched2in", 2, NSCRIPTS_T, 3, true}, {"sched3in", 3, 3, 2, true} };
     const Cfg* cfgs = T ? thor : quick; int ncfg = T ? 5 : 3;
     for (int k = 0; k < ncfg; k++) {
         Cfg c = cfgs[k];
